@@ -2132,6 +2132,19 @@ func (h *fsmHandler) established(ctx context.Context) (bgp.FSMState, *fsmStateRe
 		case m := <-fsm.notification:
 			m = convertNotification(m)
 			_ = fsm.sendNotification(fsm.conn, m)
+			conf := fsm.pConf.ReadOnly()
+			if s := conf.GracefulRestart.State; s.Enabled && s.NotificationEnabled {
+				// RFC 8538 4: with the N bit negotiated, a NOTIFICATION other than
+				// Hard Reset - sent or received - is followed by the graceful
+				// restart procedures, as if the connection had failed.
+				if b := m.Body.(*bgp.BGPNotification); !(b.ErrorCode == bgp.BGP_ERROR_CEASE && b.ErrorSubcode == bgp.BGP_ERROR_SUB_HARD_RESET) {
+					fsm.logger.Info("peer graceful restart", slog.String("State", fsm.state.String()))
+					fsm.lock.Lock()
+					fsm.gracefulRestartTimer.Reset(time.Duration(conf.GracefulRestart.State.PeerRestartTime) * time.Second)
+					fsm.lock.Unlock()
+					return bgp.BGP_FSM_IDLE, newfsmStateReason(fsmGracefulRestart, nil, nil)
+				}
+			}
 			return bgp.BGP_FSM_IDLE, newfsmStateReason(fsmNotificationSent, m, nil)
 		case conn, ok := <-fsm.connCh:
 			if !ok {
